@@ -729,6 +729,11 @@ class Watcher(object):
             graceful_timeout = self.graceful_timeout
 
         if process.stopping:
+            # somebody else is already terminating this process: wait for
+            # that to end, so that the caller never goes on to reap a
+            # process which is still alive (reaping blocks until it exits)
+            while process.stopping:
+                yield tornado_sleep(0.1)
             raise gen.Return(False)
         try:
             logger.debug("%s: kill process %s", self.name, process.pid)
